@@ -33,6 +33,7 @@ class StreamFromGenerator(DefaultPublisherSubscription, Disposable):
         self._n_feeder = None
         self._on_complete = on_complete
         self._on_cancel = on_cancel
+        self._is_finished = False
 
     async def _start_generator(self):
         self._generator = self._generator_factory()
@@ -48,6 +49,9 @@ class StreamFromGenerator(DefaultPublisherSubscription, Disposable):
             self._payload_feeder = asyncio.create_task(self.feed_subscriber())
 
     def request(self, n: int):
+        if self._is_finished:
+            return  # credit arriving after completion or cancellation must not restart the generator
+
         if self._n_feeder is None:
             self._n_feeder = asyncio.create_task(self.queue_next_n())
 
@@ -106,6 +110,8 @@ class StreamFromGenerator(DefaultPublisherSubscription, Disposable):
             self._payload_feeder = None
 
     def _cancel_n_feeder(self):
+        self._is_finished = True
+
         if self._n_feeder is not None:
             self._n_feeder.cancel()
             self._n_feeder = None
